@@ -109,21 +109,6 @@ Proof.
   pop_counts. constructor; auto; pop_fin.
 Qed.
 
-Lemma chq_ok_same_flags P P' q :
-  chq_ok P q ->
-  (forall k d, lookup k P = Some (Connected d) ->
-     exists d', lookup k P' = Some (Connected d') /\ remote d' = remote d /\ tx_dropped d' = tx_dropped d /\ rx_dropped d' = rx_dropped d) ->
-  (forall k d', lookup k P' = Some (Connected d') -> exists d, lookup k P = Some (Connected d) /\ remote d = remote d') ->
-  chq_ok P' q.
-Proof.
-  intros [C1 C2 C3] H1 H2. constructor.
-  - intros y Hy. destruct (C1 y Hy) as (x0 & c0 & P1 & P2 & P3). destruct (H1 _ _ P1) as (d' & D1 & D2 & D3 & D4).
-    exists x0, d'. repeat split; congruence.
-  - intros y Hy. destruct (C2 y Hy) as (x0 & c0 & P1 & P2 & P3). destruct (H1 _ _ P1) as (d' & D1 & D2 & D3 & D4).
-    exists x0, d'. repeat split; congruence.
-  - intros x0 d' H. destruct (H2 _ _ H) as (d & D1 & D2). rewrite <- D2. eauto.
-Qed.
-
 (** * Y consumes a frame addressed to its connected port [y]; the frame may carry requests [ps] *)
 Section Pop.
   Variables (PX PY PY' : list (N * pstate)) (OX OY OY' : list N) (QX QY : list evt) (L0 L' : list frame).
@@ -298,3 +283,86 @@ Proof.
     + intros k d A. exists d. apply Hconn in A. auto.
     + intros k d A. exists d. apply Hconn in A. auto.
 Qed.
+
+(** * Y consumes [PortOpened y x]: its [Connecting] entry becomes connected to [x] *)
+Section RecvPO.
+  Variables (PX PY PY' : list (N * pstate)) (OX OY : list N) (QX QY : list evt) (L0 L' : list frame).
+  Variables (x y : N) (c' : conn) (pl : option N).
+  Hypothesis HC : Core PX PY OX OY QX QY ((PortOpened y x, pl) :: L0) L'.
+  Hypothesis K1 : lookup y PY' = Some (Connected c').
+  Hypothesis K2 : forall k, k <> y -> lookup k PY' = lookup k PY.
+  Hypothesis Er : remote c' = x.
+  Hypothesis F1 : rx_open c' = true.
+  Hypothesis F2 : rrx_closed c' = false.
+  Hypothesis F3 : rrx_dropped c' = false.
+  Hypothesis F4 : tx_dropped c' = false.
+  Hypothesis F5 : rx_dropped c' = false.
+  Hypothesis F6 : rx_closed c' = false.
+  Hypothesis Hbuf : forall y2 c2, lookup y2 PY = Some (Connected c2) -> all4 c2 = false.
+
+  Let fr : frame := (PortOpened y x, pl).
+
+  Lemma recv_po_connecting : exists r, lookup y PY = Some (Connecting r).
+  Proof. apply (rx_po_connecting _ _ _ _ _ _ (c_xy _ _ _ _ _ _ _ _ HC y)). rewrite cnt_cons. mev. lia. Qed.
+
+  Lemma core_recv_po : Core PX PY' OX OY QX QY L0 L'.
+  Proof.
+    pose proof HC as [Hxy Hyx Hix Hiy Hox Hoy Hcx Hcy Hbx Hby].
+    assert (Hb0 : cnt m_bad L0 = 0) by (rewrite cnt_cons in Hbx; lia).
+    destruct recv_po_connecting as (r & Hr).
+    pose proof (Hxy y) as Hy. unfold rx_clause in Hy. rewrite Hr in Hy. destruct Hy as (H1 & H2 & H3 & H4).
+    destruct (H4 x) as (cX & P1 & P2); [rewrite cnt_cons; mev; lia|].
+    pose proof P1 as P1'. apply pstat_live in P1' as [Lx Rx].
+    rewrite !cnt_cons in H1. mev. rewrite ?N.add_0_l in *.
+    assert (Zpo : cnt (m_po y) L0 = 0) by lia. assert (Zrj : cnt (m_rj y) L0 = 0) by lia.
+    assert (Zo : mem y OX = false) by (destruct (mem y OX); [cbn [b2n] in H1; lia|reflexivity]).
+    assert (Zr : reqcount y L' = 0) by lia.
+    (* no other port of Y is connected to x *)
+    assert (Hstale : forall y2 c2, lookup y2 PY = Some (Connected c2) -> remote c2 <> x).
+    { intros y2 c2 H. apply (no_stale PX PY OX L0 L' fr y2 c2 x); [apply Hxy|exact H|eapply Hbuf; eauto| | |].
+      - unfold fr. mev. apply orb_true_r.
+      - reflexivity.
+      - apply (pstat_conn_other _ _ _ _ _ Lx). rewrite Rx. intros ->. congruence. }
+    assert (Hconn : forall k d, k <> y -> lookup k PY' = Some (Connected d) <-> lookup k PY = Some (Connected d)).
+    { intros k d Hne. now rewrite (K2 _ Hne). }
+    constructor; auto.
+    - intros y0. destruct (N.eq_dec y0 y) as [->|Hne].
+      + unfold rx_clause. rewrite K1, Er, P1. split; [exact Zpo|split; [exact Zrj|split; [exact Zo|split; [exact Zr|split]]]].
+        * apply (rcl_flags fresh_conn); [unfold flags_eq, fresh_conn; prj; auto 10|].
+          eapply rcl_pop_irrel; [|exact P2]. reflexivity.
+        * discriminate.
+      + eapply rx_frame; [apply Hxy|apply (K2 _ Hne)|apply leq_pop|reflexivity|reflexivity|].
+        * unfold fr. mev. apply N.eqb_neq. congruence.
+        * intros x0. apply pst_ok_refl.
+    - intros x0. eapply rx_frame; [apply Hyx|reflexivity|apply leq_refl|reflexivity| |].
+      + rewrite reqcount_cons. mev. lia.
+      + intros y0. destruct (N.eq_dec y0 y) as [->|Hne].
+        * unfold pstat. rewrite Hr, K1, Er. rewrite cnt_cons. mev. destruct (x =? x0) eqn:Ex.
+          -- cbn [b2n]. destruct (0 <? 1 + cnt (m_pox y x0) L0) eqn:El; [|apply N.ltb_ge in El; lia].
+             unfold pst_ok. cbn [txf rxf rxcf]. rewrite F4, F5, F6. repeat split; auto; discriminate.
+          -- cbn [b2n]. rewrite N.add_0_l. pose proof (cnt_pox_le_po y x0 L0).
+             destruct (0 <? cnt (m_pox y x0) L0) eqn:El; [apply N.ltb_lt in El; lia|]. apply pst_ok_refl.
+        * apply pst_ok_eq. unfold pstat. rewrite (K2 _ Hne), cnt_cons. mev.
+          apply N.eqb_neq in Hne. rewrite (N.eqb_sym y y0), Hne. cbn [andb b2n]. now rewrite N.add_0_l.
+    - intros p1 p2 c1 c2 A B Hrem. destruct (N.eq_dec p1 y) as [->|N1], (N.eq_dec p2 y) as [->|N2]; auto.
+      + rewrite K1 in A. injection A as <-. apply Hconn in B; auto. exfalso. apply (Hstale _ _ B). congruence.
+      + rewrite K1 in B. injection B as <-. apply Hconn in A; auto. exfalso. apply (Hstale _ _ A). congruence.
+      + apply Hconn in A, B; auto. eauto.
+    - intros p d A. destruct (N.eq_dec p y) as [->|N1].
+      + rewrite K1 in A. injection A as <-. rewrite Er.
+        pose proof (Hyx x) as Hx. unfold rx_clause in Hx. rewrite Lx in Hx. apply Hx.
+      + apply Hconn in A; auto. eauto.
+    - destruct Hcy as [C1 C2 C3]. constructor.
+      + intros y0 Hy0. destruct (C1 y0 Hy0) as (x0 & c0 & A1 & A2 & A3). exists x0, c0. split; [|auto].
+        rewrite K2; [exact A1|]. intros ->. congruence.
+      + intros y0 Hy0. destruct (C2 y0 Hy0) as (x0 & c0 & A1 & A2 & A3). exists x0, c0. split; [|auto].
+        rewrite K2; [exact A1|]. intros ->. congruence.
+      + intros p d A. destruct (N.eq_dec p y) as [->|N1].
+        * rewrite K1 in A. injection A as <-. rewrite Er. split; apply no_after_g0.
+          -- destruct (N.eq_dec (count (ev_sends x) QY) 0) as [E|E]; [exact E|]. exfalso.
+             destruct (C1 x) as (x0 & c0 & A1 & A2 & A3); [lia|]. eapply Hstale; eauto.
+          -- destruct (N.eq_dec (count (ev_creds x) QY) 0) as [E|E]; [exact E|]. exfalso.
+             destruct (C2 x) as (x0 & c0 & A1 & A2 & A3); [lia|]. eapply Hstale; eauto.
+        * apply Hconn in A; eauto.
+  Qed.
+End RecvPO.
